@@ -276,7 +276,13 @@ impl<T: Qcow2IoOps> Qcow2Dev<T> {
                 let buf = unsafe {
                     std::slice::from_raw_parts_mut(slice.as_mut_ptr(), slice.byte_size())
                 };
-                self.call_read(off, buf).await?;
+                if let Err(err) = self.call_read(off, buf).await {
+                    // Nothing was loaded: don't leave the (zeroed) slice
+                    // behind marked as up to date, or its next user takes
+                    // all-zero refcounts / mappings for real.
+                    slice.set_offset(None);
+                    return Err(err);
+                }
                 log::trace!("add_cache_slice: load from disk");
             } else {
                 entry.set_dirty(true);
